@@ -1554,6 +1554,9 @@ func (a *idxAnalyzer) tupleAssign(z *zone, lhs []ast.Expr, call *ast.CallExpr) {
 			z.neg[k] = true
 			if sk, ok := a.seqKey(call.Args[0]); ok {
 				z.add(k, "len("+sk+")", 0)
+			} else {
+				// Consume*(data[pos:]): the count is an offset into the suffix that starts at pos
+				a.relToSeq(z, k, call.Args[0], 0, -1<<30)
 			}
 			// a length-delimited payload is no longer than the input
 			if n == "ConsumeBytes" || n == "ConsumeString" {
